@@ -309,6 +309,11 @@ func exprStringStmt(st ast.Stmt) string {
 	return ""
 }
 
+func isLitOne(x ast.Expr) bool {
+	bl, ok := x.(*ast.BasicLit)
+	return ok && bl.Kind == token.INT && bl.Value == "1"
+}
+
 func exprString(x ast.Expr) string {
 	var sb strings.Builder
 	_ = sb
@@ -717,6 +722,62 @@ func main() {
 		})
 		if !found {
 			fail("maintenance: no case on maintenanceTicker.C found")
+		}
+	}
+
+	// policy_flag.go: which bit each Set<Name> sets, clears, and each Is<Name> tests
+	{
+		names := []string{"Root", "Probation", "Protected", "Removed", "FromNVM", "Deleted", "Window"}
+		shiftOf := func(n ast.Node) (int64, bool) {
+			var got int64 = -1
+			cnt := 0
+			ast.Inspect(n, func(m ast.Node) bool {
+				if be, ok := m.(*ast.BinaryExpr); ok && be.Op == token.SHL && isLitOne(be.X) {
+					if v, ok := evalConst(be.Y, consts); ok {
+						if k, exact := constant.Int64Val(v); exact {
+							got = k
+							cnt++
+						}
+					}
+				}
+				return true
+			})
+			return got, cnt == 1
+		}
+		var rows []string
+		okAll := true
+		for _, nm := range names {
+			setFd, isFd := findFunc(internal, "Set"+nm), findFunc(internal, "Is"+nm)
+			if setFd == nil || isFd == nil {
+				fail("policy flag " + nm + ": Set/Is method not found")
+				okAll = false
+				continue
+			}
+			var orBit, clrBit int64 = -1, -1
+			ast.Inspect(setFd.Body, func(m ast.Node) bool {
+				if as, ok := m.(*ast.AssignStmt); ok && len(as.Rhs) == 1 {
+					if k, one := shiftOf(as.Rhs[0]); one {
+						switch as.Tok {
+						case token.OR_ASSIGN:
+							orBit = k
+						case token.AND_NOT_ASSIGN:
+							clrBit = k
+						}
+					}
+				}
+				return true
+			})
+			isBit, one := shiftOf(isFd.Body)
+			if !one || orBit < 0 || clrBit < 0 {
+				fail("policy flag " + nm + ": unexpected shape")
+				okAll = false
+				continue
+			}
+			rows = append(rows, fmt.Sprintf("(%d, %d, %d)", orBit, clrBit, isBit))
+		}
+		if okAll {
+			fmt.Fprintf(&cb, "(* per flag Root, Probation, Protected, Removed, FromNVM, Deleted, Window: bit set by Set(true), bit cleared by Set(false), bit tested by Is *)\nDefinition c_flag_bits : list (Z * Z * Z) := [%s].\n", strings.Join(rows, "; "))
+			rep.Consts = append(rep.Consts, "flag_bits")
 		}
 	}
 
